@@ -197,8 +197,9 @@ func (r *vrfRef) compare(st storage.Store, box string, now time.Time, steps map[
 // remove, purge, get, visit, retention scan and *reopen* (a new Store object on the same path, any
 // number of times) - compared after every step with a reference model: every mailbox lists the same
 // messages in arrival order with the same ids, metadata, flags, sizes and content; removed, purged,
-// evicted and expired messages stay gone; one deleted event per departure.
-func VerifC10History(k int, mcap int, pre int, nset int) {
+// evicted and expired messages stay gone; one deleted event per departure. pre: 1 = one prelude
+// message per mailbox, 2 = two in the first mailbox; recap > 0: the store is reopened with that cap.
+func VerifC10History(k int, mcap int, pre int, nset int, recap int) {
 	dir := vrf.VfsTempDir()
 	defer os.RemoveAll(dir)
 	host := extension.NewHost()
@@ -219,7 +220,12 @@ func VerifC10History(k int, mcap int, pre int, nset int) {
 	names := vrfNames(nset)
 	if pre > 0 {
 		// concrete prelude: one fresh message in each mailbox (steps 8 and 9 for the dates)
-		for i, nm := range names {
+		pnames := names
+		if pre == 2 {
+			// both prelude messages go to the first mailbox (two ids issued in the same second)
+			pnames = []string{names[0], names[0]}
+		}
+		for i, nm := range pnames {
 			sfx := string(rune('8' + i))
 			b0 := vrf.Byte("byte" + sfx)
 			nid, aerr := st.AddMessage(&vrfIn{mailbox: nm, subject: "s" + sfx, from: &mail.Address{Address: "fs" + sfx + "@x"},
@@ -353,6 +359,11 @@ func VerifC10History(k int, mcap int, pre int, nset int) {
 			ref.restartStep = step
 			for _, nm := range names {
 				ref.issued[nm] = nil
+			}
+			if recap > 0 {
+				// the restarted server is configured with a different mailbox cap
+				mcap = recap
+				cfg.MailboxMsgCap = recap
 			}
 			st2, nerr := New(cfg, host)
 			vrf.Assert("reopen-noerr", nerr == nil)
